@@ -93,8 +93,10 @@ pub fn c08_cmap4_lookup_matches_spec() {
 }
 
 // @bound Cmap4Iter on 32 symbolic bytes, segCount <= 2, first 3 items; unwind 8
-// @c20
-// @c01
+// @tier thorough
+// @timeout 2400
+// @c20 thorough
+// @c01 thorough
 #[cfg_attr(kani, kani::proof)]
 #[cfg_attr(kani, kani::unwind(8))]
 pub fn c08_cmap4_iter_matches_lookup() {
@@ -203,9 +205,10 @@ pub fn c08_cmap12_iter_ascending() {
 }
 
 // @bound Cmap with 2 encoding records on 48 symbolic bytes: map_codepoint = first subtable (format 4/12) that maps; unwind 8
-// @c20
-// @c01
-// @timeout 600
+// @tier thorough
+// @timeout 2400
+// @c20 thorough
+// @c01 thorough
 #[cfg_attr(kani, kani::proof)]
 #[cfg_attr(kani, kani::unwind(8))]
 pub fn c08_cmap_first_subtable_wins() {
